@@ -20,8 +20,11 @@ def handle (j : Json) : Json :=
   if op == "cause" then
     let evs := (jarr j "events").filterMap (fun e => evOf (asStr e))
     let c := run .none evs
-    -- `finalize` runs iff the agent did not crash before
-    let sig := if jbool j "finalize" then some (finalState c) else none
+    -- `finalize` runs iff the agent did not crash before; "stop": it runs in the main thread as soon as
+    -- the first stop() has set the termination event
+    let sig := match j.getObjVal? "finalize" with
+               | .ok (.str _) => (causeAtFirstStop .none evs).map finalState
+               | _ => if jbool j "finalize" then some (finalState c) else none
     Json.mkObj [("cause", causeName c),
                 ("signal", match sig with | some s => Driver.States.jst "pilot" s | none => Json.null),
                 ("final", Driver.States.jst "pilot" (bootstrap sig))]
